@@ -70,6 +70,14 @@ fn worker(args: &[String]) -> i32 {
     };
     sqverif::run::install_quiet_panic_hook();
     sqverif::run::silence_stdout();
+    {
+        // a run that wedges the reader ends this worker with status 3 and a record of the input
+        let hang_out = format!("{}.hang.json", out);
+        sqverif::run::install_watchdog(Box::new(move |opts, data, verdict| {
+            let hex: String = data.iter().map(|b| format!("{:02x}", b)).collect();
+            let _ = std::fs::write(&hang_out, serde_json::to_vec(&serde_json::json!({"kind": "hang", "opts": opts, "hex": hex, "verdict": verdict})).unwrap());
+        }));
+    }
     let known = ctx::load_known(&verif_root());
     let mut c = Ctx::new(&id, tier, seed, worker, workers, known);
     let r = std::panic::catch_unwind(std::panic::AssertUnwindSafe(|| (spec.run)(&mut c)));
@@ -171,6 +179,22 @@ fn driver(args: &[String]) -> i32 {
                 // its scratch directory is named after its pid
                 for base in ["/dev/shm", "/tmp"] {
                     let _ = std::fs::remove_dir_all(format!("{}/sqverif-{}", base, ch.id()));
+                }
+            }
+            Some(s) if s.code() == Some(3) => {
+                let hang = std::fs::read(format!("{}.hang.json", out.display())).ok().and_then(|b| serde_json::from_slice::<Value>(&b).ok());
+                for base in ["/dev/shm", "/tmp"] {
+                    let _ = std::fs::remove_dir_all(format!("{}/sqverif-{}", base, ch.id()));
+                }
+                match hang {
+                    Some(h) if id == "C01" => merged.failures.push(ctx::Failure {
+                        property: id.clone(),
+                        msg: format!("the reader never finished a finite file ({}; options {})", h["verdict"].as_str().unwrap_or("?"), h["opts"]),
+                        sig: "c01:hang".into(),
+                        case: h,
+                    }),
+                    Some(h) => infra_problem.push(format!("a generated case wedged the reader thread ({}); termination is C01's property, this check cannot decide its own on such a tree", h["verdict"].as_str().unwrap_or("?"))),
+                    None => infra_problem.push("worker ended with status 3 without a hang record".to_string()),
                 }
             }
             Some(s) if !s.success() => infra_problem.push(format!("worker ended with {:?}", s)),
@@ -368,6 +392,44 @@ fn replay(args: &[String]) -> i32 {
     let mut c = Ctx::new(&id, Tier::Quick, 0, 0, 1, known);
     c.strict = std::env::var("VERIF_REPLAY_STRICT").is_ok();
     let case = v.get("case").cloned().unwrap_or(Value::Null);
+    {
+        let (id2, path2) = (id.clone(), path.clone());
+        sqverif::run::install_watchdog(Box::new(move |_opts, _data, verdict| {
+            // the watchdog thread speaks for the wedged main thread; stdout may be silenced, so restore is not possible: use stderr too
+            let line = if id2 == "C01" { format!("VIOLATION property={} replay={}\n  detail: the reader never finished a finite file ({})", id2, path2, verdict) } else { format!("INCONCLUSIVE: the case wedged the reader thread ({})", verdict) };
+            eprintln!("{}", line);
+            if let Some(fd) = sqverif::run::saved_stdout() {
+                let b = format!("{}\n", line);
+                unsafe { libc::write(fd, b.as_ptr() as *const libc::c_void, b.len()) };
+            }
+            std::process::exit(if id2 == "C01" { 1 } else { 2 });
+        }));
+    }
+    if case.get("kind").and_then(|k| k.as_str()) == Some("hang") {
+        let opts: sqverif::run::Opts = serde_json::from_value(case["opts"].clone()).unwrap_or_default();
+        let hex = case["hex"].as_str().unwrap_or("");
+        let data: Vec<u8> = (0..hex.len() / 2).filter_map(|i| u8::from_str_radix(&hex[2 * i..2 * i + 2], 16).ok()).collect();
+        let saved = unsafe { libc::dup(1) };
+        sqverif::run::set_saved_stdout(saved);
+        sqverif::run::silence_stdout();
+        let t = sqverif::run::new_table();
+        let r = sqverif::run::run_bytes(&opts, &t, &data);
+        unsafe {
+            libc::dup2(saved, 1);
+            libc::close(saved);
+        }
+        return match r {
+            Ok(()) => {
+                println!("replay: property {} holds on this case", id);
+                0
+            }
+            Err(e) => {
+                println!("VIOLATION property={} replay={}", id, path);
+                println!("  detail: {:?}", e);
+                1
+            }
+        };
+    }
     if case.get("kind").and_then(|k| k.as_str()) == Some("worker_panic") {
         // re-run that worker's deterministic share in this process
         let tier = parse_tier(case["tier"].as_str().map(|s| s.to_string()));
@@ -390,6 +452,7 @@ fn replay(args: &[String]) -> i32 {
     }
     // keep stdout clean while the code under test runs
     let saved = unsafe { libc::dup(1) };
+    sqverif::run::set_saved_stdout(saved);
     sqverif::run::silence_stdout();
     (spec.replay)(&mut c, &case);
     unsafe {
